@@ -1,7 +1,7 @@
 (* C14 — A damaged record is never returned as data (V2).
    Residual premise, not proved here: that in-place damage of a record does not produce ANOTHER byte string
    that is itself a complete, CRC-consistent record (a CRC-32C collision); everything else is proved. *)
-From KV Require Import Base Model Codec CodecProofs.
+From KV Require Import Base Model Codec CodecProofs CrcProofs.
 
 (* whatever a read returns from a (possibly damaged) file is a complete valid record that is really there:
    its length fields, CRC over header+payload+trailer and trailer all fit the bytes at that position *)
@@ -49,3 +49,23 @@ Theorem C14_lengths_guarded :
   zlen (mkey m) + zlen (mval m) <= max_body.
 Proof. intros crc b pos m nxt Hok Hr. destruct (read_rec_v2_msg_ok crc b pos m nxt Hok Hr) as (_ & _ & H). exact H. Qed.
 Print Assumptions C14_lengths_guarded.
+
+(* ---------- part of the residual premise, proved for Codec.crc32c: CRC-32C tells apart any two byte strings that differ
+   in exactly one byte (so in particular by one flipped bit) *)
+Theorem C14_crc32c_detects_one_byte :
+  forall pre a a' post,
+  bytes_ok pre -> bytes_ok post -> (a < 256)%N -> (a' < 256)%N -> a <> a' ->
+  crc32c (pre ++ a :: post) <> crc32c (pre ++ a' :: post).
+Proof. exact CrcProofs.crc32c_one_byte. Qed.
+Print Assumptions C14_crc32c_detects_one_byte.
+
+(* hence: a V2 record damaged in exactly one byte (a flipped bit, a one-byte overwrite) - checksum field, offset, time,
+   key, value or trailer - is never read back with its size unchanged, neither as the published message nor as any
+   other: the read fails, unless the byte hit is one of the two length fields, and then whatever is read has another size *)
+Theorem C14_single_byte_damage_detected :
+  forall b' pos m,
+  bytes_ok b' -> 0 <= pos -> bytes_ok (enc_rec crc32c V2 m) ->
+  CrcProofs.differ_at_one (enc_rec crc32c V2 m) (sub b' pos (rec_size V2 m)) ->
+  forall m' nxt, read_rec crc32c V2 b' pos = Ok (m', nxt) -> rec_size V2 m' <> rec_size V2 m.
+Proof. exact CrcProofs.single_byte_damage_detected. Qed.
+Print Assumptions C14_single_byte_damage_detected.
